@@ -448,6 +448,31 @@ Fixpoint call (fuel : nat) (c : ctx) (depth caller addr gas value : N) (w : worl
       end
   end.
 
+(* ---------- lockup precompile: UnwrapQi (core/vm/contracts.go:UnwrapQi) ----------
+   owner = caller of the precompile, wrapped = its slot in the lockup contract (0 = empty slot),
+   request = (beneficiary, value < 2^256, ETX gas limit < 2^64) parsed from the 60-byte input. *)
+Record ures := mkU { u_ok : bool; u_gas : N; u_wrapped : N; u_emit : option etx }.
+
+Definition unwrap_qi (c : ctx) (owner gas wrapped idx benef value gl : N) : ures :=
+  if gas <? gl then mkU false gas wrapped None                              (* ErrOutOfGas *)
+  else let gas1 := gas - gl in
+  if negb (in_scope (x_pfx c) benef && is_qi benef) then mkU false gas1 wrapped None   (* InternalAndQiAddress *)
+  else if negb (internal_quai (x_pfx c) owner) then mkU false gas1 wrapped None
+  else if wrapped =? 0 then mkU false gas1 wrapped None                     (* empty slot *)
+  else if wrapped <? value then mkU false gas1 wrapped None
+  else (* StateDB.SetState(lockup, owner, wrapped - value) has happened *)
+    if MaxUint16 <? idx then mkU false gas1 (wrapped - value) None
+    else mkU true gas1 (wrapped - value) (Some (mkEtx benef owner value idx EtxUnwrapQiType gl)).
+
+(* core/vm/evm.go:Call, lockup branch, at depth 0 with value 0: on error the snapshot is restored only
+   from ShaEquivalentDifficultyForkBlock on.  Result: (err == nil, leftover gas, slot, ETX list). *)
+Definition call_unwrap (c : ctx) (owner gas wrapped : N) (etxs : list etx) (benef value gl : N)
+  : bool * N * N * list etx :=
+  let r := unwrap_qi c owner gas wrapped (lenN etxs) benef value gl in
+  if u_ok r then (true, u_gas r, u_wrapped r, etxs ++ opt_list (u_emit r))
+  else if ShaEquivalentDifficultyForkBlock <=? x_ptn c then (false, u_gas r, wrapped, etxs)
+  else (false, u_gas r, u_wrapped r, etxs ++ opt_list (u_emit r)).
+
 (* ---------- specification-side helpers used by the theorems ---------- *)
 (* ETXs recorded by the operations of a trace that sit in frames that were not reverted *)
 Fixpoint emitted (e : ev) : list etx :=
@@ -498,7 +523,7 @@ Fixpoint repeatN {A} (x : A) (n : nat) (acc : list A) : list A :=
   match n with O => acc | S n' => repeatN x n' (x :: acc) end.
 
 (* a case = the inputs of one top-level EVM.Call and what the real EVM did *)
-Record case := mkCase {
+Record ecase := mkCase {
   k_id : N;
   k_pfx : N; k_ptn : N; k_elig : N; k_price : N;
   k_accts : list (N * N * list instr);     (* address, balance, code ([] = no code) *)
@@ -511,20 +536,39 @@ Record case := mkCase {
   o_etxs : list etx                         (* ETXCache beyond the prefill *)
 }.
 
-Definition case_codes (k : case) : list (N * list instr) :=
+Definition case_codes (k : ecase) : list (N * list instr) :=
   flat_map (fun x => match x with (a, _, cd) => match cd with [] => [] | _ => [(a, cd)] end end) (k_accts k).
-Definition case_ctx (k : case) : ctx := mkCtx (k_pfx k) (k_ptn k) (k_elig k) (k_price k) (case_codes k).
-Definition case_world (k : case) : world :=
+Definition case_ctx (k : ecase) : ctx := mkCtx (k_pfx k) (k_ptn k) (k_elig k) (k_price k) (case_codes k).
+Definition case_world (k : ecase) : world :=
   mkW (flat_map (fun x => match x with (a, b, _) => if b =? 0 then [] else [(a, b)] end) (k_accts k))
       (repeatN dummy_etx (N.to_nat (k_prefill k)) []).
-Definition case_run (k : case) : cres :=
+Definition case_run (k : ecase) : cres :=
   call 1100%nat (case_ctx k) 0 (k_origin k) (k_to k) (k_gas k) (k_value k) (case_world k).
 
-Definition case_ok (k : case) : bool :=
+Definition ecase_ok (k : ecase) : bool :=
   let r := case_run k in
   (c_err r =? o_err k) && (c_gas r =? o_gas k) && evs_eqb (c_tr r) (o_tr k) &&
   forallb (fun x => getb (fst x) (w_bal (c_world r)) =? snd x) (o_bals k) &&
   etxs_eqb (skipn (N.to_nat (k_prefill k)) (w_etxs (c_world r))) (o_etxs k).
 
+(* a case of the second family: a top-level Call to the lockup contract with an UnwrapQi request *)
+Record ucase := mkUCase {
+  u_id : N; u_pfx : N; u_ptn : N; u_owner : N; u_gas0 : N; u_wrapped0 : N; u_prefill : N;
+  u_benef : N; u_value : N; u_gl : N;
+  ou_ok : bool; ou_gas : N; ou_wrapped : N; ou_etxs : list etx
+}.
+Definition ucase_ok (k : ucase) : bool :=
+  let c := mkCtx (u_pfx k) (u_ptn k) 0 1 [] in
+  let pre := repeatN dummy_etx (N.to_nat (u_prefill k)) [] in
+  match call_unwrap c (u_owner k) (u_gas0 k) (u_wrapped0 k) pre (u_benef k) (u_value k) (u_gl k) with
+  | (ok, g, wr, etxs) =>
+      Bool.eqb ok (ou_ok k) && (g =? ou_gas k) && (wr =? ou_wrapped k) &&
+      etxs_eqb (skipn (N.to_nat (u_prefill k)) etxs) (ou_etxs k)
+  end.
+
+Inductive case := KE (k : ecase) | KU (k : ucase).
+Definition case_id (x : case) : N := match x with KE k => k_id k | KU k => u_id k end.
+Definition case_ok (x : case) : bool := match x with KE k => ecase_ok k | KU k => ucase_ok k end.
+
 Definition mismatches (cs : list case) : list N :=
-  map k_id (filter (fun k => negb (case_ok k)) cs).
+  map case_id (filter (fun k => negb (case_ok k)) cs).
